@@ -33,6 +33,7 @@ class Src:
     def __init__(self, world, spec, role, info=None):
         self.world = world
         self.depth, self.streamed, self.encl = world.location(info) if info is not None else (0, False, "none")
+        self.root = id(getattr(info, "root_value", None)) if info is not None else None
         self.items = spec.get("items", [])
         self.kind = spec.get("kind", "agen")
         self.delay = spec.get("delay", 0)
@@ -175,7 +176,9 @@ class World:
             return (0, False, "none")
 
     def enter(self, info):
-        d = self.location(info)[0]
+        # (depth, identity of the execution's root value: the per-event executions of a subscription
+        # overlap when the consumer pulls on while an earlier event still settles work in the background)
+        d = (self.location(info)[0], id(getattr(info, "root_value", None)))
         self.running += 1
         self.coro_started += 1
         self.running_depths.append(d)
@@ -189,12 +192,15 @@ class World:
         ex = getattr(info, "executor", None)
         bg = getattr(ex, "background_futures", None)
         inc = getattr(ex, "pending_incremental_futures", None)
+        root = id(getattr(ex, "root_value", None))
+        mine = [x for x in self.running_depths if self.sub_source is None or x[1] == root]
         self.hook_calls.append(
             {
-                "running": self.running,
-                "running_depths": sorted(self.running_depths),
+                "running": len(mine),
+                "running_depths": sorted(d for d, _ in mine),
                 "open_sources": sorted(
-                    [i, s.depth, s.streamed, s.encl] for i, s in enumerate(self.sources) if s.role == "list" and s.started and s.closed_count() == 0
+                    [i, s.depth, s.streamed, s.encl] for i, s in enumerate(self.sources)
+                    if s.role == "list" and s.started and s.closed_count() == 0 and (self.sub_source is None or s.root == root)
                 ),
                 "tracked_pending": sum(1 for f in self.tracked if not f.done()),
                 "open_list_sources": sum(
@@ -417,9 +423,9 @@ def gen_item(rng, depth, hang_ok, fail_ok):
             if depth == 0 and rng.random() < 0.04:  # more items than the stream queue buffers
                 items = [{"id": j, "name": f"b{j}", "d": rng.randint(0, 2), **({"hang": True} if hang_ok and j % 50 == 7 else {})} for j in range(rng.randint(101, 140))]
             if rng.random() < 0.65:
-                spec = {"items": items, "kind": rng.choice(["agen", "agen", "cls", "cls_noaclose"]), "delay": rng.randint(0, 2)}
+                spec = {"items": items, "kind": rng.choice(["agen", "agen", "cls", "cls_noaclose"]), "delay": rng.choice([0, 1, 2, 2, 4, 6])}
                 if rng.random() < 0.4:
-                    spec["cleanup"] = rng.randint(1, 3)
+                    spec["cleanup"] = rng.randint(1, 6)
                 if fail_ok and rng.random() < 0.3:
                     spec["raise_at"] = rng.randint(0, n)
                 if hang_ok and rng.random() < 0.2:
@@ -439,6 +445,28 @@ def gen_request(rng, family):
     fail_ok = (not hang_ok) and rng.random() < 0.8
     stop_kind = "none"
     req = {"family": family, "early": rng.random() < 0.5}
+    if rng.random() < 0.10:
+        # two stops in a row: a non-null field fails and has its sibling list cancelled, whose source needs a while
+        # to release its resource; while that close is running a second failure one level up (or, for incremental
+        # requests, the consumer's stop) cancels the selection set that is waiting for it
+        def slow_source():
+            return {"$src": {"items": [{"id": 1}, {"id": 2}], "kind": rng.choice(["agen", "cls"]), "delay": rng.randint(4, 8),
+                             "cleanup": rng.randint(3, 8)}}
+
+        inner = {"id": 2, "d": rng.randint(0, 2), "boom": True, "kids": slow_source()}
+        outer = {"id": 1, "d": rng.randint(2, 6), "boom": rng.random() < 0.7, "kid": inner, "kids": slow_source()}
+        sel = "{ boomNN1: boomNN kid2: kid { boomNN3: boomNN kids4: kids { id5: id } } kids6: kids { id7: id } }"
+        if family == "subscription":
+            req["doc"] = "subscription { ev " + sel + " }"
+            req["sub"] = {"items": [outer, dict(outer, id=3)], "kind": "agen", "delay": 0}
+            req["data"] = None
+        elif family == "incremental":
+            req["doc"] = "{ item { id8: id ... @defer { name9: name } ... @defer " + sel + " } }"
+            req["data"] = {"item": outer}
+        else:
+            req["doc"] = "{ item " + sel + " }"
+            req["data"] = {"item": outer}
+        return req
     if family == "subscription":
         req["doc"] = "subscription { ev " + gen_selection(rng, 0, False) + " }"
         n = rng.randint(0, 4)
@@ -621,6 +649,7 @@ async def _run(sc, loop):
     if stream is not None and hasattr(stream, "__anext__"):
         k = stop.get("after", 0)
         finished = False
+        gap = stop.get("gap") if kind != "none" else None  # stop this many loop iterations after the last payload
 
         async def pull_once(rounds=None):
             """One pull; returns outcome string or None when still pending after `rounds`."""
@@ -630,6 +659,20 @@ async def _run(sc, loop):
                 await settle(loop, rounds)
                 if rounds > 0:
                     obs["stream_started"] = True
+                if not t.done():
+                    return t, None
+            elif gap is not None:
+                # step until the pull returns without draining the loop: what the execution has in
+                # flight behind the delivered payload stays in flight
+                idle = 0
+                for _ in range(MAX_ROUNDS):
+                    if t.done():
+                        break
+                    await asyncio.sleep(0)
+                    idle = idle + 1 if not loop._ready else 0  # noqa: SLF001
+                    if idle >= 2:
+                        break
+                obs["stream_started"] = True
                 if not t.done():
                     return t, None
             else:
@@ -671,6 +714,8 @@ async def _run(sc, loop):
             else:
                 delivered += 1 if o == "ok" else 0
         obs["delivered_before_stop"] = delivered
+        if gap is not None and not finished and pending_pull is None:
+            await settle(loop, gap)
         if kind != "none" and not finished:
             if kind == "aclose":
                 if pending_pull is not None:
@@ -730,7 +775,7 @@ async def _run(sc, loop):
     obs["tasks_left"] = len(left)
     obs["tasks_left_names"] = sorted({getattr(t.get_coro(), "__qualname__", "?") for t in left})[:6]
     obs["running_left"] = world.running
-    obs["running_left_depths"] = sorted(world.running_depths)
+    obs["running_left_depths"] = sorted(d for d, _ in world.running_depths)
     obs["tracked_left"] = sum(1 for f in world.tracked if not f.done())
     obs["sources"] = [
         {"role": s.role, "kind": s.kind, "depth": s.depth, "streamed": s.streamed, "encl": s.encl, "started": bool(s.started), "closed": s.closed_count(), "acloses": s.acloses,
@@ -784,6 +829,10 @@ def expand_stops(rng, req, payloads, per_request):
             for reason in ("exc", "none", "str"):
                 stops.append({"kind": "abort", "after": k, "rounds": rounds, "pending": True, "reason": reason})
         stops.append({"kind": "abort", "after": k, "pending": False, "reason": "exc"})
+        if k > 0:  # a second stop while the execution is still busy behind the delivered payload
+            for gap in (0, 1, 2, 3, 5, 8):
+                stops.append({"kind": "aclose", "after": k, "gap": gap})
+            stops.append({"kind": "abort", "after": k, "pending": False, "reason": "exc", "gap": rng.choice([0, 1, 2, 4])})
     for rounds in (0, 1, 2, 4, 7):
         stops.append({"kind": "abort_initial", "rounds": rounds, "reason": rng.choice(["exc", "none", "str"])})
     if fam == "query":
